@@ -74,7 +74,7 @@ class Interp:
     # ------------------------------------------------------------------
     # obligations
     # ------------------------------------------------------------------
-    def oblige(self, kind, inst, ok, detail=None, extra_key=None):
+    def oblige(self, kind, inst, ok, detail=None, extra_key=None, undecidable=None):
         if self.recording > 0:
             return
         fn = inst.fn.name if inst is not None else (self.stack[-1][0] if self.stack else '?')
@@ -90,6 +90,8 @@ class Interp:
         if not ok:
             if ob.ok:
                 ob.detail = detail
+                if undecidable:
+                    ob.flagloop = undecidable
                 if inst is not None and kind.startswith('bounds:'):
                     for (L, ph) in inst.fn.flag_loops():
                         if inst.block in L['blocks']:
@@ -253,7 +255,17 @@ class Interp:
             detail = ('%s of %r byte(s) at offset %r of %s not provably inside [%r, %r)'
                       % (kind, size, p.off, self.describe_obj(st, p.obj), lo, hi))
             detail += self.explain(st, [p.off, size, hi])
-        self.oblige('bounds:' + kind, inst, ok1 and ok2, detail, self.describe_obj(st, p.obj))
+        und = None
+        if not (ok1 and ok2) and inst is not None and o is not None and o.info.get('cstr_len') is None and \
+                not (st.cons.entails_le(p.off + 1, lo) or st.cons.entails_le(hi + 1, p.off + size)):
+            # a scan / copy that runs up to a terminator inside an object for which no terminator position is modelled (a slot
+            # of a larger buffer, say): where the loop ends is unknown to the domain, so its extent is not a verdict
+            for L in inst.fn.sentinel_loops():
+                if inst.block in L['blocks']:
+                    und = ('%s: the loop at %s runs up to a NUL byte inside %s, for which no terminator position is modelled'
+                           % (inst.fn.srcname or inst.fn.name, L['header'].term.where(), self.describe_obj(st, p.obj)))
+                    break
+        self.oblige('bounds:' + kind, inst, ok1 and ok2, detail, self.describe_obj(st, p.obj), undecidable=und)
         if not (ok1 and ok2) and (st.cons.entails_le(p.off + 1, lo) or st.cons.entails_le(hi + 1, p.off + size)):
             # definitely outside: the path ends here (undefined behaviour); continuing under the in-bounds assumption would
             # make the state inconsistent, and an inconsistent state decides every later test both ways
